@@ -17,7 +17,8 @@ Record Inv (s : state) : Prop := {
   i_clock : forall x, In x (acts s) -> a_start x <= clock s;
   i_jclock : forall j, In j (joins s) -> j_ostart j <= clock s;
   i_own : forall x n gj, In x (acts s) -> In (n, gj) (a_own x) -> gj < length (joins s) /\ j_ostart (join_of s gj) = a_start x;
-  i_mode : forall x gj, In x (acts s) -> (a_mode x = MWaitSet gj \/ a_mode x = MWaitFut gj) -> j_ostart (join_of s gj) = a_start x;
+  i_mode : forall x gj, In x (acts s) -> (a_mode x = MWaitSet gj \/ a_mode x = MWaitFut gj) ->
+           gj < length (joins s) /\ j_ostart (join_of s gj) = a_start x;
   i_noup_a : forall x, In x (acts s) -> noup (a_ops x) = true;
   i_noup_t : forall t, In t (tasks s) -> noup (t_body t) = true;
   i_active : forall t, t < length (tasks s) -> t_st (task_of s t) = TActive ->
@@ -30,7 +31,8 @@ Record Inv (s : state) : Prop := {
   i_parked : forall g, In g (agents s) -> parked g = true -> stack g = [];
   i_steal : steal s <> [] -> exists w, In w (agents s) /\ worker w = true /\ parked w = false /\
             forall t x, In t (steal s) -> In x (stack w) -> ostart_of s t < a_start x;
-  i_root : 0 < length (agents s) /\ worker (agent_of s 0) = false
+  i_root : 0 < length (agents s) /\ worker (agent_of s 0) = false;
+  i_tjoin : forall t, t < length (tasks s) -> t_join (task_of s t) < length (joins s)
 }.
 
 (* ---------- lists / agents ---------- *)
@@ -104,8 +106,8 @@ Qed.
 Definition mode_ok (s : state) (x : act) (m : mode) : Prop :=
   match m with
   | MRun => True
-  | MWaitSet gj => j_ostart (join_of s gj) = a_start x
-  | MWaitFut gj => j_ostart (join_of s gj) = a_start x /\ gj < length (joins s) /\ j_kind (join_of s gj) = JFut /\
+  | MWaitSet gj => gj < length (joins s) /\ j_ostart (join_of s gj) = a_start x
+  | MWaitFut gj => (gj < length (joins s) /\ j_ostart (join_of s gj) = a_start x) /\ gj < length (joins s) /\ j_kind (join_of s gj) = JFut /\
                    t_st (task_of s (j_ftask (join_of s gj))) <> TQueued
   end.
 
@@ -133,7 +135,7 @@ Proof.
   - exact (i_jclock s I).
   - intros y n gj Hy Hn'. destruct (Hin y Hy) as [->|H]; [apply (i_own s I x n gj Hx Hn') | apply (i_own s I y n gj H Hn')].
   - intros y gj Hy Hmo. destruct (Hin y Hy) as [->|H]; [|apply (i_mode s I y gj H Hmo)].
-    cbn [x' set_top a_mode a_start] in *. destruct Hmo as [->|->]; cbn in Hm; [exact Hm | tauto].
+    cbn [x' set_top a_mode a_start] in *. destruct Hmo as [-> | ->]; cbn in Hm; [exact Hm | tauto].
   - intros y Hy. destruct (Hin y Hy) as [->|H]; [exact Hn | apply (i_noup_a s I y H)].
   - exact (i_noup_t s I).
   - intros t Ht Hs. destruct (i_active s I t Ht Hs) as (y & Hy & Ey & Ly).
@@ -142,12 +144,12 @@ Proof.
   - exact (i_fut s I).
   - intros y gj Hy Hmo. destruct (Hin y Hy) as [->|H]; [|apply (i_waitfut s I y gj H Hmo)].
     cbn [x' set_top a_mode] in Hmo. subst m. cbn in Hm. tauto.
-  - intros g Hg Hp. apply in_agents_with_stack in Hg. destruct Hg as [->|Hg]; [cbn in Hp; rewrite Pf in Hp; discriminate | apply (i_parked s I g Hg Hp)].
+  - intros g Hg Hp. apply in_agents_with_stack in Hg. destruct Hg as [->|Hg]; [cbn [parked] in Hp; rewrite Pf in Hp; discriminate | apply (i_parked s I g Hg Hp)].
   - intros Hne. destruct (i_steal s I Hne) as (w & Hw & Ww & Pw & Hall).
     destruct (in_nth_ex _ _ dagent Hw) as (b & Hb & Eb).
     destruct (Nat.eq_dec b a) as [->|Hneq].
     + exists (AG (x' :: below) (parked (agent_of s a)) (worker (agent_of s a))).
-      assert (Ew : w = agent_of s a) by (unfold agent_of; rewrite Eb; reflexivity). subst w.
+      assert (Ew : w = agent_of s a) by (unfold agent_of; rewrite Eb; reflexivity). rewrite Ew in Hall, Ww, Pw.
       split; [unfold s', with_stack; rewrite agents_with_agent; apply set_nth_in_new; exact Ha|].
       split; [exact Ww|]. split; [exact Pw|].
       intros t y Ht Hy. cbn [stack] in Hy. destruct Hy as [<-|Hy].
@@ -158,4 +160,224 @@ Proof.
     unfold s', with_stack, agent_of. rewrite agents_with_agent. destruct (Nat.eq_dec a 0) as [->|Hne].
     + rewrite nth_set_nth_same by exact H0. exact Hw.
     + rewrite nth_set_nth_other by exact Hne. exact Hw.
+  - exact (i_tjoin s I).
+Qed.
+
+(* ---------- with_tstate ---------- *)
+Lemma tasks_len_tstate s t x : length (tasks (with_tstate s t x)) = length (tasks s).
+Proof. unfold with_tstate. cbn [tasks]. apply set_nth_length. Qed.
+
+Lemma task_of_tstate_same s t x : t < length (tasks s) ->
+  task_of (with_tstate s t x) t = TR (t_body (task_of s t)) (t_cap (task_of s t)) (t_join (task_of s t)) x.
+Proof. intros H. unfold task_of at 1, with_tstate. cbn [tasks]. apply nth_set_nth_same. exact H. Qed.
+
+Lemma task_of_tstate_other s t x u : u <> t -> task_of (with_tstate s t x) u = task_of s u.
+Proof. intros H. unfold task_of, with_tstate. cbn [tasks]. apply nth_set_nth_other. auto. Qed.
+
+Lemma tjoin_tstate s t x u : t_join (task_of (with_tstate s t x) u) = t_join (task_of s u).
+Proof.
+  destruct (Nat.eq_dec u t) as [->|Hne]; [|rewrite task_of_tstate_other by exact Hne; reflexivity].
+  destruct (Nat.lt_ge_cases t (length (tasks s))) as [Hl|Hl]; [rewrite task_of_tstate_same by exact Hl; reflexivity|].
+  unfold task_of, with_tstate. cbn [tasks]. rewrite !nth_overflow; [reflexivity | exact Hl | rewrite set_nth_length; exact Hl].
+Qed.
+
+Lemma tst_tstate s t x u : u < length (tasks s) -> t_st (task_of (with_tstate s t x) u) = if Nat.eqb u t then x else t_st (task_of s u).
+Proof.
+  intros Hu. destruct (Nat.eqb u t) eqn:E.
+  - apply Nat.eqb_eq in E. subst. rewrite task_of_tstate_same by exact Hu. reflexivity.
+  - apply Nat.eqb_neq in E. rewrite task_of_tstate_other by exact E. reflexivity.
+Qed.
+
+Lemma set_nth_overflow {A} (l : list A) n y : length l <= n -> set_nth l n y = l.
+Proof. revert n; induction l as [|z r IH]; intros [|n] H; cbn in *; try lia; auto. f_equal. apply IH. lia. Qed.
+
+Lemma in_tasks_tstate s t x tr : In tr (tasks (with_tstate s t x)) -> exists tr0, In tr0 (tasks s) /\ t_body tr = t_body tr0.
+Proof.
+  unfold with_tstate. cbn [tasks]. destruct (Nat.lt_ge_cases t (length (tasks s))) as [Hl|Hl].
+  - intros H. apply in_set_nth in H. destruct H as [->|H]; [|exists tr; auto].
+    exists (task_of s t). split; [unfold task_of; apply nth_In; exact Hl | reflexivity].
+  - rewrite set_nth_overflow by exact Hl. intros H. exists tr. auto.
+Qed.
+
+Lemma ostart_tstate s t x u : ostart_of (with_tstate s t x) u = ostart_of s u.
+Proof. unfold ostart_of. rewrite tjoin_tstate. reflexivity. Qed.
+
+(* ---------- kind 2: the top activation finishes ---------- *)
+Lemma inv_finish s a x below : Inv s -> a < length (agents s) -> stack (agent_of s a) = x :: below ->
+  Inv (with_stack (with_tstate s (a_task x) TDone) a below).
+Proof.
+  intros I Ha Hst. set (tk := a_task x). set (s1 := with_tstate s tk TDone). set (s' := with_stack s1 a below).
+  assert (Hst1 : stack (agent_of s1 a) = x :: below) by exact Hst.
+  assert (Hin : forall y, In y (acts s') -> In y (acts s)).
+  { intros y Hy. apply acts_with_stack_in in Hy. destruct Hy as [Hy|Hy]; [|exact Hy].
+    apply in_acts. exists (agent_of s a). split; [apply agent_in; exact Ha | rewrite Hst; right; exact Hy]. }
+  assert (Hkeep : forall y, In y (acts s) -> y = x \/ In y (acts s')).
+  { intros y Hy. destruct (acts_with_stack_keep s1 a below y Hy) as [H|H]; [|right; exact H].
+    rewrite Hst1 in H. destruct H as [<-|H]; [left; reflexivity|]. right. apply acts_with_stack_new; [exact Ha | exact H]. }
+  assert (Pf : parked (agent_of s a) = false).
+  { destruct (parked (agent_of s a)) eqn:E; [|reflexivity]. pose proof (i_parked s I _ (agent_in s a Ha) E) as C. rewrite Hst in C. discriminate. }
+  constructor.
+  - intros t Ht. change (length (tasks s')) with (length (tasks s1)). unfold s1. rewrite tasks_len_tstate. apply (i_range s I). exact Ht.
+  - intros g Hg. apply in_agents_with_stack in Hg. destruct Hg as [->|Hg]; [|apply (i_sorted s I); exact Hg].
+    cbn [stack]. pose proof (i_sorted s I _ (agent_in s a Ha)) as S. rewrite Hst in S. apply (sorted_desc_tail _ _ S).
+  - intros y Hy. apply (i_clock s I y (Hin y Hy)).
+  - exact (i_jclock s I).
+  - intros y n gj Hy Hn. apply (i_own s I y n gj (Hin y Hy) Hn).
+  - intros y gj Hy Hm. apply (i_mode s I y gj (Hin y Hy) Hm).
+  - intros y Hy. apply (i_noup_a s I y (Hin y Hy)).
+  - intros tr Htr. apply in_tasks_tstate in Htr. destruct Htr as (tr0 & H0 & E). rewrite E. apply (i_noup_t s I tr0 H0).
+  - intros t Ht Hs. change (length (tasks s')) with (length (tasks s1)) in Ht. unfold s1 in Ht. rewrite tasks_len_tstate in Ht.
+    change (task_of s' t) with (task_of s1 t) in Hs. unfold s1 in Hs. rewrite tst_tstate in Hs by exact Ht.
+    destruct (Nat.eqb t tk) eqn:E; [discriminate|]. apply Nat.eqb_neq in E.
+    destruct (i_active s I t Ht Hs) as (y & Hy & Ey & Ly). destruct (Hkeep y Hy) as [->|H]; [exfalso; apply E; symmetry; exact Ey|].
+    exists y. split; [exact H|]. split; [exact Ey|]. change (ostart_of s' t) with (ostart_of s1 t). unfold s1. rewrite ostart_tstate. exact Ly.
+  - intros t Ht Hs. change (length (tasks s')) with (length (tasks s1)) in Ht. unfold s1 in Ht. rewrite tasks_len_tstate in Ht.
+    change (task_of s' t) with (task_of s1 t) in Hs. unfold s1 in Hs. rewrite tst_tstate in Hs by exact Ht.
+    destruct (Nat.eqb t tk); [discriminate|]. apply (i_queued s I t Ht Hs).
+  - intros gj Hg Hk. destruct (i_fut s I gj Hg Hk) as [F1 F2]. split.
+    + change (length (tasks s')) with (length (tasks s1)). unfold s1. rewrite tasks_len_tstate. exact F1.
+    + change (task_of s' (j_ftask (join_of s' gj))) with (task_of s1 (j_ftask (join_of s gj))). unfold s1. rewrite tjoin_tstate. exact F2.
+  - intros y gj Hy Hm. destruct (i_waitfut s I y gj (Hin y Hy) Hm) as (R & K & Q). split; [exact R|]. split; [exact K|].
+    destruct (i_fut s I gj R K) as [F1 _].
+    change (task_of s' (j_ftask (join_of s' gj))) with (task_of s1 (j_ftask (join_of s gj))). unfold s1. rewrite tst_tstate by exact F1.
+    destruct (Nat.eqb (j_ftask (join_of s gj)) tk); [discriminate | exact Q].
+  - intros g Hg Hp. apply in_agents_with_stack in Hg. destruct Hg as [->|Hg]; [cbn [parked] in Hp; change (agent_of s1 a) with (agent_of s a) in Hp; rewrite Pf in Hp; discriminate | apply (i_parked s I g Hg Hp)].
+  - intros Hne. destruct (i_steal s I Hne) as (w & Hw & Ww & Pw & Hall).
+    destruct (in_nth_ex _ _ dagent Hw) as (b & Hb & Eb).
+    destruct (Nat.eq_dec b a) as [->|Hneq].
+    + exists (AG below (parked (agent_of s a)) (worker (agent_of s a))).
+      assert (Ew : w = agent_of s a) by (unfold agent_of; rewrite Eb; reflexivity). rewrite Ew in Hall, Ww, Pw.
+      split; [unfold s', with_stack; rewrite agents_with_agent; apply set_nth_in_new; exact Ha|].
+      split; [exact Ww|]. split; [exact Pw|].
+      intros t y Ht Hy. cbn [stack] in Hy. change (ostart_of s' t) with (ostart_of s1 t). unfold s1. rewrite ostart_tstate.
+      apply (Hall t y Ht). rewrite Hst. right. exact Hy.
+    + exists w. split; [unfold s', with_stack; rewrite agents_with_agent; rewrite <- Eb; apply set_nth_in_other; assumption|].
+      split; [exact Ww|]. split; [exact Pw|]. intros t y Ht Hy. change (ostart_of s' t) with (ostart_of s1 t). unfold s1. rewrite ostart_tstate. apply (Hall t y Ht Hy).
+  - destruct (i_root s I) as [H0 Hw]. split; [unfold s', with_stack; rewrite agents_with_agent, set_nth_length; exact H0|].
+    unfold s', with_stack, agent_of. rewrite agents_with_agent. destruct (Nat.eq_dec a 0) as [->|Hne].
+    + rewrite nth_set_nth_same by exact H0. exact Hw.
+    + rewrite nth_set_nth_other by exact Hne. exact Hw.
+  - intros t Ht. change (length (tasks s')) with (length (tasks s1)) in Ht. unfold s1 in Ht. rewrite tasks_len_tstate in Ht.
+    change (task_of s' t) with (task_of s1 t). unfold s1. rewrite tjoin_tstate. apply (i_tjoin s I t Ht).
+Qed.
+
+(* ---------- kind 3: a queued task is started on top of agent a's stack ---------- *)
+Lemma inv_start s a c' st' t : Inv s -> a < length (agents s) -> parked (agent_of s a) = false ->
+  (forall u, In u (c' ++ st') -> In u (cq s ++ steal s)) ->
+  (forall u, In u (cq s ++ steal s) -> u <> t -> In u (c' ++ st')) ->
+  (forall u, In u st' -> In u (steal s)) ->
+  In t (cq s ++ steal s) ->
+  Inv (start_task (with_queues s c' st') a (stack (agent_of s a)) t).
+Proof.
+  intros I Ha Pf Hsub Hrest Hsts Htin.
+  set (old := stack (agent_of s a)).
+  set (sT := with_tstate s t TActive).
+  set (n := ACT t (t_body (task_of s t)) [] (t_cap (task_of s t)) MRun (S (clock s))).
+  set (s1 := ST (tasks sT) (joins s) c' st' (agents s) (S (clock s))).
+  change (start_task (with_queues s c' st') a old t) with (with_stack s1 a (n :: old)).
+  set (s' := with_stack s1 a (n :: old)).
+  assert (Htr : t < length (tasks s)) by (apply (i_range s I); exact Htin).
+  assert (Hold : forall y, In y old -> In y (acts s)).
+  { intros y Hy. apply in_acts. exists (agent_of s a). split; [apply agent_in; exact Ha | exact Hy]. }
+  assert (Hin : forall y, In y (acts s') -> y = n \/ In y (acts s)).
+  { intros y Hy. apply acts_with_stack_in in Hy. destruct Hy as [[<-|Hy]|Hy]; auto. }
+  assert (Hkeep : forall y, In y (acts s) -> In y (acts s')).
+  { intros y Hy. destruct (acts_with_stack_keep s1 a (n :: old) y Hy) as [H|H]; [|exact H].
+    apply acts_with_stack_new; [exact Ha | right; exact H]. }
+  assert (Hn : In n (acts s')) by (apply acts_with_stack_new; [exact Ha | left; reflexivity]).
+  assert (Hos : forall u, ostart_of s' u = ostart_of s u) by (intros u; change (ostart_of s' u) with (ostart_of sT u); apply ostart_tstate).
+  assert (Hlen : length (tasks s') = length (tasks s)) by (change (length (tasks s')) with (length (tasks sT)); apply tasks_len_tstate).
+  assert (Hole : forall u, ostart_of s u <= clock s) by (intros u; unfold ostart_of; apply join_ostart_le; exact (i_jclock s I)).
+  constructor.
+  - intros u Hu. rewrite Hlen. apply (i_range s I). apply Hsub. exact Hu.
+  - intros g Hg. apply in_agents_with_stack in Hg. destruct Hg as [->|Hg]; [|apply (i_sorted s I); exact Hg].
+    cbn [stack map sorted_desc]. split; [|apply (i_sorted s I _ (agent_in s a Ha))].
+    intros z Hz. apply in_map_iff in Hz. destruct Hz as (y & <- & Hy). pose proof (i_clock s I y (Hold y Hy)). cbn. lia.
+  - intros y Hy. change (clock s') with (S (clock s)). destruct (Hin y Hy) as [->|H]; [cbn; lia | pose proof (i_clock s I y H); lia].
+  - intros j Hj. change (clock s') with (S (clock s)). pose proof (i_jclock s I j Hj). lia.
+  - intros y m gj Hy Hm. destruct (Hin y Hy) as [->|H]; [cbn in Hm; contradiction | apply (i_own s I y m gj H Hm)].
+  - intros y gj Hy Hm. destruct (Hin y Hy) as [->|H]; [cbn in Hm; destruct Hm; discriminate | apply (i_mode s I y gj H Hm)].
+  - intros y Hy. destruct (Hin y Hy) as [->|H]; [|apply (i_noup_a s I y H)].
+    cbn [a_ops n]. apply (i_noup_t s I). unfold task_of. apply nth_In. exact Htr.
+  - intros tr Htr'. change (tasks s') with (tasks sT) in Htr'. apply in_tasks_tstate in Htr'. destruct Htr' as (tr0 & H0 & E). rewrite E. apply (i_noup_t s I tr0 H0).
+  - intros u Hu Hs. rewrite Hlen in Hu. rewrite Hos. destruct (Nat.eq_dec u t) as [->|Hne].
+    + exists n. split; [exact Hn|]. split; [reflexivity|]. pose proof (Hole t). cbn. lia.
+    + change (task_of s' u) with (task_of sT u) in Hs. unfold sT in Hs. rewrite task_of_tstate_other in Hs by exact Hne.
+      destruct (i_active s I u Hu Hs) as (y & Hy & Ey & Ly). exists y. auto.
+  - intros u Hu Hs. rewrite Hlen in Hu. change (task_of s' u) with (task_of sT u) in Hs. unfold sT in Hs. rewrite tst_tstate in Hs by exact Hu.
+    destruct (Nat.eqb u t) eqn:E; [discriminate|]. apply Nat.eqb_neq in E.
+    change (cq s' ++ steal s') with (c' ++ st'). apply Hrest; [apply (i_queued s I u Hu Hs) | exact E].
+  - intros gj Hg Hk. destruct (i_fut s I gj Hg Hk) as [F1 F2]. split; [rewrite Hlen; exact F1|].
+    change (task_of s' (j_ftask (join_of s' gj))) with (task_of sT (j_ftask (join_of s gj))). unfold sT. rewrite tjoin_tstate. exact F2.
+  - intros y gj Hy Hm. destruct (Hin y Hy) as [->|H]; [cbn in Hm; discriminate|].
+    destruct (i_waitfut s I y gj H Hm) as (R & K & Q). split; [exact R|]. split; [exact K|].
+    destruct (i_fut s I gj R K) as [F1 _].
+    change (task_of s' (j_ftask (join_of s' gj))) with (task_of sT (j_ftask (join_of s gj))). unfold sT. rewrite tst_tstate by exact F1.
+    destruct (Nat.eqb (j_ftask (join_of s gj)) t); [discriminate | exact Q].
+  - intros g Hg Hp. apply in_agents_with_stack in Hg. destruct Hg as [->|Hg]; [cbn [parked] in Hp; change (agent_of s1 a) with (agent_of s a) in Hp; rewrite Pf in Hp; discriminate | apply (i_parked s I g Hg Hp)].
+  - intros Hne. change (steal s') with st' in *.
+    assert (Hne0 : steal s <> []) by (destruct st' as [|u0 r0]; [contradiction|]; intros E; specialize (Hsts u0 (or_introl eq_refl)); rewrite E in Hsts; contradiction).
+    destruct (i_steal s I Hne0) as (w & Hw & Ww & Pw & Hall).
+    destruct (in_nth_ex _ _ dagent Hw) as (b & Hb & Eb).
+    destruct (Nat.eq_dec b a) as [->|Hneq].
+    + exists (AG (n :: old) (parked (agent_of s a)) (worker (agent_of s a))).
+      assert (Ew : w = agent_of s a) by (unfold agent_of; rewrite Eb; reflexivity). rewrite Ew in Hall, Ww, Pw.
+      split; [unfold s', with_stack; rewrite agents_with_agent; apply set_nth_in_new; exact Ha|].
+      split; [exact Ww|]. split; [exact Pw|].
+      intros u y Hu Hy. rewrite Hos. cbn [stack] in Hy. destruct Hy as [<-|Hy].
+      * pose proof (Hole u). cbn. lia.
+      * apply (Hall u y (Hsts u Hu) Hy).
+    + exists w. split; [unfold s', with_stack; rewrite agents_with_agent; rewrite <- Eb; apply set_nth_in_other; assumption|].
+      split; [exact Ww|]. split; [exact Pw|]. intros u y Hu Hy. rewrite Hos. apply (Hall u y (Hsts u Hu) Hy).
+  - destruct (i_root s I) as [H0 Hw]. split; [unfold s', with_stack; rewrite agents_with_agent, set_nth_length; exact H0|].
+    unfold s', with_stack, agent_of. rewrite agents_with_agent. destruct (Nat.eq_dec a 0) as [->|Hne].
+    + rewrite nth_set_nth_same by exact H0. exact Hw.
+    + rewrite nth_set_nth_other by exact Hne. exact Hw.
+  - intros u Hu. rewrite Hlen in Hu. change (task_of s' u) with (task_of sT u). unfold sT. rewrite tjoin_tstate. apply (i_tjoin s I u Hu).
+Qed.
+
+(* ---------- kinds 4/5: only the parked flag of agent a changes (a worker parks; a parked worker is claimed) ---------- *)
+Lemma inv_flags s a g' : Inv s -> a < length (agents s) ->
+  stack g' = stack (agent_of s a) -> worker g' = worker (agent_of s a) ->
+  (parked g' = true -> stack g' = [] /\ steal s = []) ->
+  Inv (with_agent s a g').
+Proof.
+  intros I Ha Hs Hw Hp. set (s' := with_agent s a g').
+  assert (Hin : forall y, In y (acts s') <-> In y (acts s)).
+  { intros y. rewrite !in_acts. split.
+    - intros (g & Hg & Hy). unfold s' in Hg. rewrite agents_with_agent in Hg. apply in_set_nth in Hg. destruct Hg as [->|Hg].
+      + exists (agent_of s a). split; [apply agent_in; exact Ha | rewrite <- Hs; exact Hy].
+      + exists g. auto.
+    - intros (g & Hg & Hy). destruct (in_nth_ex _ _ dagent Hg) as (b & Hb & Eb). destruct (Nat.eq_dec b a) as [->|Hne].
+      + exists g'. split; [unfold s'; rewrite agents_with_agent; apply set_nth_in_new; exact Ha|].
+        rewrite Hs. unfold agent_of. rewrite Eb. exact Hy.
+      + exists g. split; [unfold s'; rewrite agents_with_agent; rewrite <- Eb; apply set_nth_in_other; assumption | exact Hy]. }
+  constructor.
+  - exact (i_range s I).
+  - intros g Hg. unfold s' in Hg. rewrite agents_with_agent in Hg. apply in_set_nth in Hg. destruct Hg as [->|Hg]; [|apply (i_sorted s I g Hg)].
+    rewrite Hs. apply (i_sorted s I _ (agent_in s a Ha)).
+  - intros y Hy. apply (i_clock s I y). apply Hin. exact Hy.
+  - exact (i_jclock s I).
+  - intros y n gj Hy Hn. apply (i_own s I y n gj); [apply Hin; exact Hy | exact Hn].
+  - intros y gj Hy Hm. apply (i_mode s I y gj); [apply Hin; exact Hy | exact Hm].
+  - intros y Hy. apply (i_noup_a s I y). apply Hin. exact Hy.
+  - exact (i_noup_t s I).
+  - intros t Ht Hst. destruct (i_active s I t Ht Hst) as (y & Hy & E & L). exists y. split; [apply Hin; exact Hy | auto].
+  - exact (i_queued s I).
+  - exact (i_fut s I).
+  - intros y gj Hy Hm. apply (i_waitfut s I y gj); [apply Hin; exact Hy | exact Hm].
+  - intros g Hg Hpk. unfold s' in Hg. rewrite agents_with_agent in Hg. apply in_set_nth in Hg. destruct Hg as [->|Hg]; [apply Hp; exact Hpk | apply (i_parked s I g Hg Hpk)].
+  - intros Hne. change (steal s') with (steal s) in *. destruct (i_steal s I Hne) as (w & Hw0 & Ww & Pw & Hall).
+    destruct (in_nth_ex _ _ dagent Hw0) as (b & Hb & Eb). destruct (Nat.eq_dec b a) as [->|Hneq].
+    + assert (Ew : w = agent_of s a) by (unfold agent_of; rewrite Eb; reflexivity). rewrite Ew in Hall, Ww, Pw.
+      exists g'. split; [unfold s'; rewrite agents_with_agent; apply set_nth_in_new; exact Ha|].
+      split; [rewrite Hw; exact Ww|]. split.
+      * destruct (parked g') eqn:E; [|reflexivity]. destruct (Hp eq_refl) as [_ C]. contradiction.
+      * intros t y Ht Hy. rewrite Hs in Hy. apply (Hall t y Ht Hy).
+    + exists w. split; [unfold s'; rewrite agents_with_agent; rewrite <- Eb; apply set_nth_in_other; assumption | auto].
+  - destruct (i_root s I) as [H0 Hw0]. split; [unfold s'; rewrite agents_with_agent, set_nth_length; exact H0|].
+    unfold s', agent_of. rewrite agents_with_agent. destruct (Nat.eq_dec a 0) as [->|Hne].
+    + rewrite nth_set_nth_same by exact H0. rewrite Hw. exact Hw0.
+    + rewrite nth_set_nth_other by exact Hne. exact Hw0.
+  - exact (i_tjoin s I).
 Qed.
